@@ -170,10 +170,12 @@ def check(ctx, rep):
         u = uc[0]
         rep.ob("R-ONCE", "the result of that call is returned", p.value == ("call", u.d["func"], u.d["args"], u.d["kwargs"], None), "", where_of(out))
         positional = None
-        for t, v in p.branch_atoms():
-            if isinstance(t, tuple) and t[0] == "cmp" and t[1] == "is" and isinstance(t[3], tuple) and t[3][0] == "global" and t[3][2] == "ARGS":
+        for b in p.evs("branch"):
+            t, v = b.d
+            if isinstance(t, tuple) and t[0] == "cmp" and isinstance(t[3], tuple) and t[3][0] == "global" and t[3][2] == "ARGS":
                 positional = v
-        rep.require(positional is not None, "partially applied function: `key is ARGS` test not found")
+                rep.ob("R-CURRY", "the positional tag is recognised by identity", t[1] == "is", "`key %s ARGS`: a keyword argument whose name compares equal to the tag would be passed positionally" % t[1], where_of(out, b.node), trace_of(p, b.seq))
+        rep.require(positional is not None, "partially applied function: test of the key against the positional tag not found")
         ins = [e for e in p.calls() if q.call_name(e) in ("insert", "append") and q.term_name(q.recv(e)) in (None, "args") and isinstance(q.recv(e), tuple)]
         kwst = [e for e in p.evs("store") if e.d["target"][0] == "sub"]
         X = runner.params[1]
@@ -213,6 +215,31 @@ def check(ctx, rep):
                 keyok = True
     rep.ob("R-CURRY", "key and future are unpacked from the same peeled pair", keyok, "", where_of(wf))
 
+    # the positional tag is a unique sentinel object
+    import ast as _ast
+    tagdef = wf.module.assigns.get("ARGS", [])
+    uniq = len(tagdef) == 1 and isinstance(tagdef[0], _ast.Call) and isinstance(tagdef[0].func, _ast.Name) and tagdef[0].func.id == "object" and not tagdef[0].args
+    rep.ob("R-CURRY", "the positional tag is a unique sentinel", uniq, "ARGS is defined as %s: it can collide with a keyword argument's name" % (_ast.unparse(tagdef[0]) if tagdef else None), wf.module.relpath)
+
+    # ---- closures that run later must not see a variable that is re-bound after they were created
+    rep.rule("R-CAPTURE", "a closure created inside _wrapped_f_apply / fn_runner and run later (as a map function) does not refer to a local variable of its defining function that is assigned again after the closure was created (Python closures bind late)")
+    for owner in [wf] + [f for f in prog.functions.values() if f.parent is not None and _top(f) is wf]:
+        assigned = {}
+        for node in _ast.walk(owner.node):
+            if isinstance(node, (_ast.FunctionDef, _ast.Lambda)) and node is not owner.node:
+                continue
+        body_nodes = list(_own_nodes(owner.node))
+        for node in body_nodes:
+            if isinstance(node, _ast.Name) and isinstance(node.ctx, _ast.Store):
+                assigned.setdefault(node.id, []).append(_stmt_end(owner.node, node))
+        for sub in owner.nested.values():
+            free = set(n.id for n in _ast.walk(sub.node) if isinstance(n, _ast.Name) and isinstance(n.ctx, _ast.Load)) - set(sub.all_param_names())
+            created = (sub.node.lineno, sub.node.col_offset)
+            for name in sorted(free):
+                later = [pos for pos in assigned.get(name, []) if pos >= created]
+                rep.ob("R-CAPTURE", "%s does not capture a variable re-bound later (%s)" % (sub.qualname, name), not later,
+                       "closure %s refers to `%s`, which %s assigns again after the closure is created: when the closure runs later it sees the new value" % (sub.qualname, name, owner.qualname), where_of(sub))
+
     # ---- f_apply
     ps, it = ctx.paths(fa, None, depth=0)
     for p in ps:
@@ -223,3 +250,35 @@ def check(ctx, rep):
         ok = len(c1) == 1 and c1[0].d["args"] == (("star", ("seq", (), ("param", fa.vararg), 0)),) and tuple(c1[0].d["kwargs"]) == ((None, ("kw", (), ("param", fa.kwarg))),)
         ok = ok and len(c2) == 1 and c2[0].d["args"] == (("param", fa.params[0]), ("call", c1[0].d["func"], c1[0].d["args"], c1[0].d["kwargs"], None))
         rep.ob("R-PLUMB", "f_apply = _wrapped_f_apply(future_fn, _wrap_args(*future_args, **future_kwargs))", ok, "", where_of(fa), trace_of(p))
+
+
+def _top(f):
+    while f.parent is not None:
+        f = f.parent
+    return f
+
+
+def _own_nodes(fnode):
+    """nodes of a function body, not descending into nested functions / lambdas"""
+    import ast as _ast
+    stack = list(_ast.iter_child_nodes(fnode))
+    while stack:
+        n = stack.pop()
+        yield n
+        if isinstance(n, (_ast.FunctionDef, _ast.AsyncFunctionDef, _ast.Lambda)):
+            continue
+        stack.extend(_ast.iter_child_nodes(n))
+
+
+def _stmt_end(fnode, name_node):
+    """position at which the assignment to name_node takes effect: the end of its statement (the value is
+    evaluated first, so a closure inside the value is created before the assignment)"""
+    import ast as _ast
+    best = None
+    for st in _ast.walk(fnode):
+        if isinstance(st, _ast.stmt) and hasattr(st, "end_lineno"):
+            if (st.lineno, st.col_offset) <= (name_node.lineno, name_node.col_offset) <= (st.end_lineno, st.end_col_offset):
+                if isinstance(st, (_ast.Assign, _ast.AugAssign, _ast.AnnAssign, _ast.For, _ast.With)):
+                    if best is None or (st.lineno, st.col_offset) >= best[0]:
+                        best = ((st.lineno, st.col_offset), (st.end_lineno, st.end_col_offset))
+    return best[1] if best else (name_node.lineno, name_node.col_offset)
